@@ -193,6 +193,25 @@ func (c *childState) runCase(idx int, cs Case) {
 	case "size-stream":
 		c.runSizeStream(idx, cs)
 		return
+	case "oneside":
+		c.progress(idx, "ComputeDiff one-side oversized")
+		before := diff.VerifEquivCount.Load()
+		d, err := cli.ComputeDiff(cli.RealFileSystem{}, cs.Base, cs.File)
+		r := Rec{Case: cs.ID, Family: cs.Family, Kind: "oneside", Equiv: diff.VerifEquivCount.Load() - before}
+		if err != nil {
+			r.Err = err.Error()
+		}
+		if d != nil {
+			for _, f := range d.Functions {
+				if f.Function == "Grow" {
+					r.FP = f.Status
+					r.Uses = len(f.AddedOps) + len(f.RemovedOps)
+					r.NumFuncs = f.MatchedNodes
+				}
+			}
+		}
+		c.emit(r)
+		return
 	}
 	src, err := os.ReadFile(cs.File)
 	if err != nil {
